@@ -46,6 +46,12 @@ PROPS = {
     "C19": dict(targets=["Properties_C19.vo"], families=[("term", 0.5)], codes=[102]),
 }
 
+PARTIAL = {
+    "C07": "PARTIAL: absence of undefined behaviour in the compiled C++ is not proved; it is observed by running every generated input through the real library under ASan+UBSan (exploration). Termination, size bound, index obligations and resynchronisation are proved on the model.",
+    "C12": "PARTIAL: data-race freedom of the compiled program is not proved; it is observed by interleaved and threaded runs (TSan in the thorough tier). The frame property of the model and the absence of mutable statics in the current sources/objects are proved.",
+    "C14": "PARTIAL: delivery to the process's standard output is OS/runtime behaviour and is not proved; it is observed with a child process over the real stdout_channel. The channel model's homomorphism is proved.",
+}
+
 BASE_N = {"quick": 1500, "thorough": 20000}
 THOROUGH_SEEDS = 5
 
@@ -80,6 +86,8 @@ def gen_family(family, seed, n):
             lines += gen.gen_chunks_case(r, cid)
         elif family == "strings":
             lines += gen.gen_strings_case(r, cid)
+        elif family == "parser_enum":
+            return gen.gen_parser_enum(4 if n >= 10000 else 3)
         elif family == "keyseq":
             lines += gen.gen_keyseq_case(r, cid)
         elif family == "garbage":
@@ -623,6 +631,9 @@ def run_check(pid, tier, seed, replay=None):
     for sd in seeds:
         for fam, weight in P["families"]:
             do_family(fam, sd, max(20, int(BASE_N[tier] * weight)), "main")
+    if tier == "thorough" and pid in ("C05", "C06", "C07", "C20"):
+        # complete small scope: every byte string up to length 4 over the parser's byte classes
+        do_family("parser_enum", seed, 20000, "enum")
 
     # widen once when a proof or the tie is broken but no failing input was found
     if (proof_failed or mismatches or crashes) and not fails and tier == "quick":
@@ -717,10 +728,12 @@ def run_check(pid, tier, seed, replay=None):
         "correspondence_mismatches": len(mismatches), "oracle_failures": len(real_fails),
         "known_findings_seen": sorted(known_hits.keys()),
         "proof_targets_failed": proof_failed, "notes": notes, "special": sp_stats,
-        "coqchk": chk,
+        "coqchk": chk, "partial": pid in PARTIAL,
+        "explanation": PARTIAL.get(pid, "all clauses of the property are decided by theorems about the model; the tie to the code is generation + sampled correspondence"),
         "exhaustive": False,
     }
-    assumptions = ["glyphs displayable, one cell per glyph, declared size = actual size (DESIGN.md section 8)",
+    assumptions = ([PARTIAL[pid]] if pid in PARTIAL else []) + [
+                   "glyphs displayable, one cell per glyph, declared size = actual size (DESIGN.md section 8)",
                    "the correspondence is sampled differential testing, not a proof about the C++"]
     vc.write_evidence(pid, tier, seed, "proof", cov, assumptions, time.time() - t0, 1 if rc else 0)
     vc.log("%s: %s  (theorems %d/%d, cases %d, mismatches %d, oracle failures %d, %.1fs)" % (
